@@ -150,7 +150,7 @@ def _pairwise(features, build, probe, max_n, seed):
 FSQ_FEATURES = dict(levels=[(5, 4), (8, 5, 5), (3,), (2, 6), (7, 7)], num_codebooks=[1, 2], sym=[False, True], noise=[0.0, 0.5], proj=[False, True],
                     layout=['seq', 'cfirst'], keep=[None, True])
 LFQ_FEATURES = dict(cd=[1, 3, 4], num_codebooks=[1, 2], spherical=[False, True], proj=[False, True], clamp=[None, 2.0], act=['identity', 'tanh'],
-                    frac=[1.0, 0.5], softplus=[False, True], layout=['seq', 'cfirst'], commit=[0.0, 0.25])
+                    frac=[1.0, 0.5], softplus=[False, True], layout=['seq', 'cfirst'], commit=[0.0, 0.25], cosproj=[False, True])
 RES_FEATURES = dict(cls=['rvq', 'rfsq', 'rlfq', 'rsimvq'], nq=[1, 2, 4], dropout=[False, True], cutoff=[0, 1], multiple=[1, 2], proj=[False, True], layout=['seq', 'cfirst'])
 
 
@@ -167,7 +167,7 @@ def _lfq_build(c):
     nd = c['cd'] * c['num_codebooks']
     return LFQ(codebook_size=2 ** c['cd'], num_codebooks=c['num_codebooks'], spherical=c['spherical'], dim=(nd + 1 if c['proj'] else nd), soft_clamp_input_value=c['clamp'],
                straight_through_activation=(nn.Tanh() if c['act'] == 'tanh' else nn.Identity()), frac_per_sample_entropy=c['frac'], experimental_softplus_entropy_loss=c['softplus'],
-               channel_first=(c['layout'] == 'cfirst'), commitment_loss_weight=c['commit'])
+               channel_first=(c['layout'] == 'cfirst'), commitment_loss_weight=c['commit'], cosine_sim_project_in=bool(c.get('cosproj')))
 
 
 def _res_build(c):
